@@ -22,6 +22,7 @@ for f in sorted(glob.glob('/verif/evidence/C*.json')):
 
 # contracts that are assumptions by declaration
 assumed = set()
+promising = set()   # contracts that promise something to callers (ensures / modifies / pure / function)
 for f in glob.glob('/repo/**/verif_contracts.go', recursive=True):
     pkg = f[len('/repo/'):-len('/verif_contracts.go')] if f != '/repo/verif_contracts.go' else ''
     prefix = 'orb/' + pkg + '.' if pkg else 'orb.'
@@ -44,6 +45,8 @@ for f in glob.glob('/repo/**/verif_contracts.go', recursive=True):
             cur = None
         elif cur and t.split()[0] == 'trusted':
             assumed.add(cur)
+        elif cur and t.split()[0] in ('ensures', 'modifies', 'pure', 'function'):
+            promising.add(cur)
 
 iface = {k for k in used if re.search(r'\((visitor|simplifier|Geometry|Pointer)\)\.', k)}
 bad = []
@@ -52,6 +55,8 @@ for k in sorted(used):
         continue
     if not k.startswith('orb'):
         continue  # contracts of functions outside /repo are extern (assumed, listed)
+    if k not in promising:
+        continue  # requires-only contract: callers prove the requires and assume nothing
     bad.append(k)
 
 print(f"contracts used by callers: {len(used)}; verified in full somewhere: {len([k for k in used if k in full])}; "
